@@ -121,8 +121,7 @@ def openA (st : St) : Except Err St :=
     let names := curveNames c
     if hasDupKey (names.map (·.1)) then .error .dupChannel
     else if names.any isDateTime then .error .unsupported
-    else if identClash names then .error .unsupported
-    else .ok { st with cur := .arr ⟨match st.wrapV with | some v => truthy v | none => false, names, [], []⟩ }
+    else .ok { st with cur := .arr ⟨match st.wrapV with | some v => truthy v | none => false, nullOf st, names, [], []⟩ }
 
 theorem topLevel_A (st : St) (X : Str) : topLevel st ('~' :: 'A' :: X) = openA st := by
   simp [topLevel, sectHead, isSectLetter, openA]
